@@ -1,6 +1,7 @@
 """C12  The daemon wakes itself for all time-driven work and never spins."""
 import vlib
 import schedlib
+import wakediff
 
 ID = "C12"
 CLAIMED = True
@@ -36,9 +37,12 @@ TRUSTED = [
     "modelled, not verified: BinaryHeap as a multiset; time inside one iteration does not advance; "
     "check_ip_changes does nothing when the interface table is unchanged",
 ]
-PARTIAL = ("time-driven work covered: query retransmissions, hostname-resolution deadlines, the interface check. "
-           "Probe steps, tie-break retry, announcement repeats, record refresh and expiry, verify deadlines need the "
-           "registry / cache layers and incoming datagrams and are NOT covered by this check. 'Number of iterations "
+PARTIAL = ("time-driven work covered by theorems: query retransmissions, hostname-resolution deadlines, the interface "
+           "check. Probe steps, announcement repeats, goodbye repeats, record refresh and expiry with their events, "
+           "cache-flush expiry, verify deadlines, follow-up queries need the registry / cache layers: for those the "
+           "check has no theorem; it runs the model-free exact-vs-dense comparison (tools/props/wakediff.py: two "
+           "identical daemons, one woken exactly as asked, one more often; the exact one must never act later) and a "
+           "bound on iterations per second, as search support. 'Number of iterations "
            "per unit of virtual time' is proved as: every wake-up moves strictly forward (a stale timer of a stopped "
            "search or of a changed interval still causes one wake-up without work - observed, not a spin). "
            "The granted wake-up is a parameter of the theorems (any later time is allowed). The monitor theorem "
@@ -47,13 +51,21 @@ PARTIAL = ("time-driven work covered: query retransmissions, hostname-resolution
 HARNESS_ARGS = ["sim"]
 PER_SHARD = 8
 
-project = schedlib.project
-model_input = schedlib.model_input
 nontrivial = schedlib.nontrivial
 
 
+def project(line, raw):
+    return wakediff.project(line, raw) if wakediff.is_wd(line) else schedlib.project(line, raw)
+
+
+def model_input(line, raw):
+    return wakediff.model_input(line, raw) if wakediff.is_wd(line) else schedlib.model_input(line, raw)
+
+
 def generate(rng, tier):
-    return schedlib.generate_histories(rng, tier, ID)
+    # scheduler-slice histories (model + correspondence) and the model-free exact-vs-dense
+    # comparison over histories with caches, registrations and injected traffic
+    return schedlib.generate_histories(rng, tier, ID) + wakediff.generate(rng, tier)
 
 
 def shrink(line, still_bad):
